@@ -396,6 +396,8 @@ pub fn drive(
     on_panic: &(dyn Fn(u64, &PanicInfo, &mut Report) + Sync),
 ) {
     let only: Option<u64> = ONLY_CASE.with(|o| *o.borrow());
+    // QV_TRACE=1: print every case index before it runs (to locate a case that aborts the process)
+    let trace = std::env::var_os("QV_TRACE").is_some();
     let mut next = 0u64;
     while next < n {
         let start = next;
@@ -412,6 +414,9 @@ pub fn drive(
                                 i += 1;
                                 continue;
                             }
+                        }
+                        if trace {
+                            eprintln!("case {}", i);
                         }
                         let r = guarded(|| case(i, rep));
                         i += 1;
